@@ -202,7 +202,15 @@ def check_script(acc, case):
         return
     world = World(POP, output='stdout')
     marks = []
-    buffer = io.StringIO()
+
+    class Stdout(io.StringIO):
+        """Standard output with a buffer in front of it, as when it is a file
+        or a pipe: only what has been flushed has been written."""
+        committed = 0
+
+        def flush(self):
+            self.committed = len(self.getvalue())
+    buffer = Stdout()
 
     def on_request(entry):
         world._on_request(entry)
@@ -236,14 +244,19 @@ def check_script(acc, case):
              sample={'script': printer.to_text(case['body'])[:400],
                      'stdout': got[:200]}
              if nontrivial and len(acc.samples) < 4 else None)
-    ok = False
-    for variant in (True, False):
-        want, want_marks = model(expected, variant)
-        if got in (want, want + '\n') and marks == want_marks:
-            ok = True
+    # the first output on a line has nothing in front of it, also when the
+    # line was begun by a `\n` at the end of a printf text
+    want, want_marks = model(expected, False)
+    ok = got in (want, want + '\n') and marks == want_marks
+    if ok and not aborted and buffer.committed != len(got):
+        acc.fail('stdout:not-flushed',
+                 'when the script ended only {} of its {} characters had been '
+                 'flushed to standard output\n{}'.format(
+                     buffer.committed, len(got),
+                     printer.to_text(case['body'])), payload)
+        return
     if ok and not aborted:
         return
-    want, want_marks = model(expected, True)
     if aborted:
         sig, what = 'stdout:aborted', aborted[0]
     elif got not in (want, want + '\n'):
